@@ -1155,12 +1155,17 @@ RETCODE adfFileCreateNextBlock ( struct AdfFile * const file )
         file->fileHdr->highSeq++;
     }
     else {
+        nSect = -1;
         /* one more sector is needed for one file extension block */
         if ((file->nDataBlock%MAX_DATABLK)==0) {
-            extSect = adfGet1FreeBlock(file->volume);
-/*printf("extSect=%ld\n",extSect);*/
-            if ( extSect == -1 )
+            /* the extension block and the data block it will list are allocated
+               together, so that a full volume leaves nothing half done */
+            SECTNUM both[2];
+            if ( ! adfGetFreeBlocks ( file->volume, 2, both ) )
                 return RC_VOLFULL;
+            extSect = both[0];
+            nSect   = both[1];
+/*printf("extSect=%ld\n",extSect);*/
 
             /* the future block is the first file extension block */
             if (file->nDataBlock==MAX_DATABLK) {
@@ -1168,6 +1173,7 @@ RETCODE adfFileCreateNextBlock ( struct AdfFile * const file )
                     file->currentExt=(struct bFileExtBlock*)malloc(sizeof(struct bFileExtBlock));
                 if (!file->currentExt) {
                     adfSetBlockFree(file->volume, extSect);
+                    adfSetBlockFree(file->volume, nSect);
                     (*adfEnv.eFct)("adfCreateNextFileBlock : malloc");
                     return RC_MALLOC;
                 }
@@ -1192,10 +1198,11 @@ RETCODE adfFileCreateNextBlock ( struct AdfFile * const file )
             file->posInExtBlk = 0L;
 /*printf("extSect=%ld\n",extSect);*/
         }
-        nSect = adfGet1FreeBlock(file->volume);
-        if ( nSect == -1 )
-            return RC_VOLFULL;
-        
+        if ( nSect == -1 ) {
+            nSect = adfGet1FreeBlock(file->volume);
+            if ( nSect == -1 )
+                return RC_VOLFULL;
+        }
 /*printf("adfCreateNextFileBlock ext %ld\n",nSect);*/
 
         file->currentExt->dataBlocks[MAX_DATABLK-1-file->posInExtBlk] = nSect;
